@@ -482,6 +482,8 @@ class Parser:
                         self.eat(")")
                         if ty in ("usize", "u64", "isize", "i64"):
                             return "(ELit 8)"
+                        if not re.fullmatch(r"[A-Z]", ty):
+                            raise Unsupported("size of a concrete type")     # e.g. FOOTER_SIZE stays opaque
                         return "(EVar %s)" % q(segs[-1] + "_" + ty)
                     raise Unsupported("turbofish")
                 segs.append(self.eat())
